@@ -412,12 +412,12 @@ class Node:
         # copy, don't overwrite
         elif merge_metadata == 'copy':
             for key in old_root.metadata.keys():
-                node.root.metadata = old_root.metadata[key].copy()
+                if key not in node.root.metadata.keys():
+                    node.root.metadata = old_root.metadata[key].copy(name=key)
         # copy, overwrite
         elif merge_metadata == 'copyover':
             for key in old_root.metadata.keys():
-                if key not in node.root.metadata.keys():
-                    node.root.metadata = old_root.metadata[key].copy()
+                node.root.metadata = old_root.metadata[key].copy(name=key)
         # return
         return node.root
 
